@@ -32,7 +32,8 @@ CONSTANTS Labels,     \* labels of the model variables (strings for labelled kin
           MaxKeyLen,  \* raw keys have at most this many labels (repeats allowed)
           Kind1, Kind2,   \* class of slot 1 and of slot 2
           FixedReg, FixedMul,
-          MaxTerms    \* bound on the number of stored terms (state constraint)
+          MaxTerms,   \* bound on the number of stored terms (state constraint)
+          Ops         \* names of the operation families enabled in Next (all of them: AllOps)
 VARIABLES o, op
 vars == <<o, op>>
 Kinds == <<Kind1, Kind2>>
@@ -114,7 +115,11 @@ AncName(j) == "__a" \o ToString(j)
 RECURSIVE AddAncTerms(_, _, _, _)
 AddAncTerms(r, x, j, n) == IF n = 0 THEN r
                            ELSE AddAncTerms(AugAddR(AugAddR(r, <<AncName(j)>>, 1), <<x, AncName(j)>>, -2), x, j + 1, n - 1)
-AddConsR(r, x, n) == LET b == AddAncTerms(r, x, r.anc, n)
+\* variants of constraint calls the conformance harness makes: 0: eq (no ancilla), 1/2: le with 1/2 slack bits,
+\* 3: ge, 4: lt, 5: ne (sign bit + slack)
+AncCount(v) == CASE v = 0 -> 0 [] v = 1 -> 1 [] v = 2 -> 2 [] v = 3 -> 1 [] v = 4 -> 1 [] OTHER -> 3
+AddConsR(r, x, v) == LET n == AncCount(v)
+                         b == AddAncTerms(r, x, r.anc, n)
                      IN [b EXCEPT !.anc = r.anc + n, !.gen = r.gen \cup (r.anc..(r.anc + n - 1)), !.ncons = r.ncons + 1]
 
 \* ---------------- the state machine ----------------
@@ -146,15 +151,22 @@ DoAddCons(s, x, n) == IsConstr(o[s].kind) /\ Step(s, AddConsR(o[s], x, n), <<"ad
 \* to_enumerated() / to_qubo(): observation only, the object is unchanged
 DoToEnum(s, red) == IsLabelled(o[s].kind) /\ UNCHANGED o /\ op' = <<"toenum", s, red>>
 
+AllOps == {"setitem", "augadd", "iadd", "isub", "update", "imul", "scalar", "ipow", "clear", "refresh", "copy", "addcons", "toenum"}
+On(x) == x \in Ops
 Next == \E s \in Slots :
-          \/ \E k \in RawKeys, v \in Vals : DoSetItem(s, k, v) \/ DoAugAdd(s, k, v)
-          \/ \E j \in Slots : DoIAdd(s, j, << >>) \/ DoISub(s, j, << >>) \/ DoUpdate(s, j, << >>) \/ DoIMul(s, j, << >>)
-          \/ \E lit \in LitDicts : DoIAdd(s, 0, lit) \/ DoISub(s, 0, lit) \/ DoUpdate(s, 0, lit) \/ DoIMul(s, 0, lit)
-          \/ \E c \in Vals : DoIAddScalar(s, c) \/ DoIMulScalar(s, c)
-          \/ DoIPow(s) \/ DoClear(s) \/ DoRefresh(s)
-          \/ \E d \in Slots : DoCopy(s, d)
-          \/ \E x \in Labels, n \in 1..2 : DoAddCons(s, x, n)
-          \/ \E red \in BOOLEAN : DoToEnum(s, red)
+          \/ On("setitem") /\ \E k \in RawKeys, v \in Vals : DoSetItem(s, k, v)
+          \/ On("augadd") /\ \E k \in RawKeys, v \in Vals : DoAugAdd(s, k, v)
+          \/ On("iadd") /\ ((\E j \in Slots : DoIAdd(s, j, << >>)) \/ (\E lit \in LitDicts : DoIAdd(s, 0, lit)))
+          \/ On("isub") /\ ((\E j \in Slots : DoISub(s, j, << >>)) \/ (\E lit \in LitDicts : DoISub(s, 0, lit)))
+          \/ On("update") /\ ((\E j \in Slots : DoUpdate(s, j, << >>)) \/ (\E lit \in LitDicts : DoUpdate(s, 0, lit)))
+          \/ On("imul") /\ ((\E j \in Slots : DoIMul(s, j, << >>)) \/ (\E lit \in LitDicts : DoIMul(s, 0, lit)))
+          \/ On("scalar") /\ \E c \in Vals : DoIAddScalar(s, c) \/ DoIMulScalar(s, c)
+          \/ On("ipow") /\ DoIPow(s)
+          \/ On("clear") /\ DoClear(s)
+          \/ On("refresh") /\ DoRefresh(s)
+          \/ On("copy") /\ \E d \in Slots : DoCopy(s, d)
+          \/ On("addcons") /\ \E x \in Labels, n \in 0..5 : DoAddCons(s, x, n)
+          \/ On("toenum") /\ \E red \in BOOLEAN : DoToEnum(s, red)
 Spec == Init /\ [][Next]_vars
 
 \* ---------------- the properties (C14), as predicates of ONE object record ----------------
@@ -181,6 +193,6 @@ RefreshExact == [][op'[1] = "refresh" => LET s == op'[2] IN
                      /\ o'[s].anc = o[s].anc /\ o'[s].ncons = o[s].ncons]_vars
 \* ancilla names are never generated twice by one object (until it is cleared)
 AncNeverReused == [][op'[1] = "addcons" => LET s == op'[2] IN (o'[s].gen \ o[s].gen) \cap o[s].gen = {}
-                                                              /\ Cardinality(o'[s].gen) = Cardinality(o[s].gen) + op'[4]]_vars
+                                                              /\ Cardinality(o'[s].gen) = Cardinality(o[s].gen) + AncCount(op'[4])]_vars
 View == o
 =============================================================================
